@@ -1351,8 +1351,10 @@ fn build_moov_box(
 ) -> Vec<u8> {
     // Calculate duration in media timescale, then convert to movie timescale (ms)
     let video_duration_media = video_tables.total_duration();
+    // media ticks -> movie ticks: divide by the (integral) timescale ratio instead of
+    // multiplying first, which overflows u64 for very long timelines
     let video_duration_ms =
-        (video_duration_media * MOVIE_TIMESCALE as u64 / MEDIA_TIMESCALE as u64) as u32;
+        (video_duration_media / (MEDIA_TIMESCALE / MOVIE_TIMESCALE) as u64) as u32;
 
     // next_track_ID must be larger than every track ID in use (video = 1, audio = 2)
     let next_track_id = if audio.is_some() { 3 } else { 2 };
